@@ -11,7 +11,7 @@ CLAUSES = [
     ("every public operation with integer arguments leaves every time value in both views integer-typed: a float-taint typing "
      "of all functions of the modelled files, regenerated from the source on every run (Gen/TaintFacts.lean), with a certificate "
      "the kernel checks to be closed under the typing rules and under which no tick sink (store into .time, time= keyword, "
-     "third positional argument of Message, argument handed to a function of the modelled files, value returned/appended by "
+     "every attribute store, third positional argument of Message, argument handed to a function of the modelled files, value returned/appended by "
      "the duration and velocity-bin helpers, tick formatted into a token) is maybe-float; in addition the Lean model is "
      "Int-typed and the correspondence prints Python times with their type",
      ["SCoda.C11.cert_closed", "SCoda.C11.no_float_reaches_a_tick", "SCoda.C11.sinks_seen", "SCoda.C11.float_fn_found",
@@ -19,9 +19,8 @@ CLAUSES = [
     ("the capacity / bar-length expressions of Bar, the bar splitter and the tokeniser are int-typed and equal the model's floor division (PyNum); int()/round() always return ints",
      ["SCoda.C11.barCapacityPy_int", "SCoda.C11.splitBarLenPy_int", "SCoda.C11.tokCapacityPy_int", "SCoda.C11.barCapacityPy_eq",
       "SCoda.C11.splitBarLenPy_eq", "SCoda.C11.tokCapacityPy_eq", "SCoda.C11.pyround_int", "SCoda.C11.pyint_int"]),
-    ("every float-introducing expression site of the modelled files is inside int(...)/round(...) or is a known, argued site; "
-     "the evaluated default step sizes, note values and velocity bins are int-typed",
-     ["SCoda.C11.sites_guarded", "SCoda.C11.known_sites_exist", "SCoda.C11.defaults_int_typed"]),
+    ("the evaluated default step sizes, note values and velocity bins are int-typed (values computed by the real functions at generation time)",
+     ["SCoda.C11.defaults_int_typed"]),
 ]
 RULE = ("histories of <=6 (quick) / <=12 (thorough) public operations over integer-tick inputs, then bars (short, unequal "
         "tracks), compositions, tokenise/detokenise of the result; the canonical form prints every time with its Python type; "
@@ -178,7 +177,7 @@ def generate(ctx):
         # short bars and unequal tracks: typed correspondence of bar construction / splitting
         rel, _ = G.gen_wf_rel(rng, max_tick=40, max_dur=12, channels=(0,))
         rel = [m for m in rel if m[0] != TIMESIG]
-        n, d = rng.choice([(4, 4), (3, 4), (6, 8), (5, 8), (7, 8), (3, 8)])
+        n, d = G.any_sig(rng)
         ctx.corr("bar", P.op_bar(n, d, None, rel))
         ctx.check("bar", {"rel": rel, "num": n, "den": d})
         piece = G.gen_piece(rng, unequal=True, tail_ok=True)
